@@ -9,6 +9,17 @@
 #include "lha_input_stream.h"
 #include "drv_util.h"
 
+#ifdef LHASA_VERIF
+void verif_alloc_begin(unsigned long k);
+void verif_alloc_end(FILE *out);
+static unsigned long drv_fail_at;        /* set by the driver before drv_stream_open */
+#define DRV_ALLOC_BEGIN() verif_alloc_begin(drv_fail_at)
+#define DRV_ALLOC_END() verif_alloc_end(stdout)
+#else
+#define DRV_ALLOC_BEGIN() ((void) 0)
+#define DRV_ALLOC_END() ((void) 0)
+#endif
+
 typedef struct {
 	LHAInputStream *stream;
 	uint8_t *data; size_t len, pos;
@@ -41,13 +52,14 @@ static int drv_stream_open(DrvStream *d, const char *kind, const char *hx)
 {
 	memset(d, 0, sizeof(*d));
 	d->data = unhex_alloc(hx, &d->len, 0);
-	if (!strcmp(kind, "cbskip")) { d->is_cb = 1; d->stream = lha_input_stream_new(&ds_type_skip, d); }
-	else if (!strcmp(kind, "cbnoskip")) { d->is_cb = 1; d->stream = lha_input_stream_new(&ds_type_noskip, d); }
+	if (!strcmp(kind, "cbskip")) { d->is_cb = 1; DRV_ALLOC_BEGIN(); d->stream = lha_input_stream_new(&ds_type_skip, d); }
+	else if (!strcmp(kind, "cbnoskip")) { d->is_cb = 1; DRV_ALLOC_BEGIN(); d->stream = lha_input_stream_new(&ds_type_noskip, d); }
 	else if (!strcmp(kind, "file")) {
 		snprintf(d->path, sizeof(d->path), "/dev/shm/drvhdr_%d.bin", (int) getpid());
 		d->fh = fopen(d->path, "wb"); if (!d->fh) return 0;
 		fwrite(d->data, 1, d->len, d->fh); fclose(d->fh);
 		d->fh = fopen(d->path, "rb"); if (!d->fh) return 0;
+		DRV_ALLOC_BEGIN();
 		d->stream = lha_input_stream_from_FILE(d->fh);
 	} else if (!strcmp(kind, "pipe")) {
 		int fds[2];
@@ -62,6 +74,7 @@ static int drv_stream_open(DrvStream *d, const char *kind, const char *hx)
 		}
 		close(fds[1]);
 		d->fh = fdopen(fds[0], "rb");
+		DRV_ALLOC_BEGIN();
 		d->stream = lha_input_stream_from_FILE(d->fh);
 	} else return 0;
 	return d->stream != NULL;
@@ -70,6 +83,7 @@ static int drv_stream_open(DrvStream *d, const char *kind, const char *hx)
 static void drv_stream_close(DrvStream *d)
 {
 	if (d->stream) lha_input_stream_free(d->stream);
+	DRV_ALLOC_END();
 	if (d->fh) fclose(d->fh);
 	if (d->child > 0) { int st; waitpid(d->child, &st, 0); }
 	if (d->path[0]) unlink(d->path);
